@@ -12,6 +12,11 @@ pub mod worker;
 #[cfg(test)]
 pub(crate) mod tests;
 
+// Verification hooks: the module source lives outside the repository (in /verif).
+#[cfg(feature = "verif")]
+#[path = "/verif/harness/hq/mod.rs"]
+pub mod verif;
+
 pub type Error = crate::common::error::HqError;
 pub type Result<T> = std::result::Result<T, Error>;
 
